@@ -461,4 +461,173 @@ theorem hasUnbounded_body_eq_model (R : Ro) (w h : UInt16) (scr : Screen) :
     simp [SurfaceBodies.hasUnboundedWidth, SurfaceBodies.hasUnboundedWidthParams, SurfaceBodies.hasUnboundedHeight,
       SurfaceBodies.hasUnboundedHeightParams, h65]
 
+/-! ### Draw with `Softwrap = false` (RichText and Text): the row loop with the ellipsis branch
+
+`var lineWidth int; for … { lineWidth += char.Width }; truncate := lineWidth > int(ctx.Max.Width)`, then per character: `break` at
+`col >= Max.Width`; when `truncate && col+uint16(char.Width) >= Max.Width` the "…" cell (RichText: in the style of the character it
+replaces, Text: in the widget's style) is written and the row ends (`break cols`); otherwise the character is written and
+`col += uint16(char.Width)` — executed, this is the model's `drawLines` in the hard mode (`hardM`: `hard = true`, ellipsis conjuncts
+`[lineTooWide, reach]`). -/
+
+theorem richDraw_hard_body_eq_model (R : Ro) (c : Ctx) (cells : List Cell) (sw sh : UInt16) (scr : Screen)
+    (hs : R.fields "Softwrap" = some (.bool false))
+    (hcells : R.self "meth:cells" [.wid 0, .ctx c] = some (.ok (.cells cells)))
+    (hsize : R.self "meth:findContainerSize" [.wid 0, .cells cells, .ctx c] = some (.ok (.size sw sh))) :
+    (run R SurfaceBodies.richDraw SurfaceBodies.richDrawParams [.wid 0, .ctx c] scr).map (·.1)
+      = (match drawLines exactA (hardM none) c.maxW c.maxH R.hard 0 (newSurface exactA sw sh) with
+         | .ok s => .ok (.tup (.surf s) .nil)
+         | .error p => .error (.panic p)) := by
+  simp [SurfaceBodies.richDraw, SurfaceBodies.richDrawParams, hs, hcells, hsize]
+  rw [show scanStates false R.hard = (scanPairs R.hard).map (fun p => Val.scanner false p.2 p.1) from rfl]
+  rw [loopS_foldS R _ 7 (.scan "v4")
+    (fun (a : Val × UInt16 × Surface) => { ρ := [("r", .wid 0), ("v0", .ctx c), ("v1", .cells cells), ("v2", .size sw sh),
+        ("v3", .surf a.2.2), ("v4", a.1), ("v5", .u16 a.2.1)], scr := scr })
+    (fun p => Val.scanner false p.2 p.1) (rowStepH id false c.maxW c.maxH none)
+    ?_ (scanPairs R.hard) 0 (Val.scanner false R.hard [], 0, newSurface exactA sw sh)]
+  · rcases foldS_rowStepH id false c.maxW c.maxH none R.hard (Val.scanner false R.hard []) 0 (newSurface exactA sw sh) with
+      ⟨sc', row', s', h1 | h1, h2⟩ | ⟨p, h1, h2⟩
+    · rw [List.map_id] at h2; rw [h1, h2]; simp [Step.toRes]
+    · rw [List.map_id] at h2; rw [h1, h2]; simp [Step.toRes]
+    · rw [List.map_id] at h2; rw [h1, h2]; simp [Step.toRes]
+  · intro a b i
+    obtain ⟨sc, row, s⟩ := a
+    obtain ⟨line, rest⟩ := b
+    by_cases hg : c.maxH ≤ row
+    · simp [rowStepH, hg, Step.toRes]
+    · simp [rowStepH, hg, Step.toRes]
+      rw [loopS_foldS R _ 10 (.range "_" "v9")
+        (fun (acc : Int) => { ρ := [("r", .wid 0), ("v0", .ctx c), ("v1", .cells cells), ("v2", .size sw sh), ("v3", .surf s),
+            ("v4", Val.scanner false rest line), ("v5", .u16 row), ("v6", .u16 0), ("v7", .cells line), ("v8", .int acc)], scr := scr })
+        Val.cell (fun acc ch => Step.next (acc + ch.w)) ?_ line 0 0, foldS_widthInt]
+      · simp [Step.toRes]
+        rw [show decide ((c.maxW.toNat : Int) < lineWidthInt line) = tooWide c.maxW line from rfl]
+        rw [loopS_foldS R _ 11 (.range "_" "v11")
+          (fun (a : UInt16 × Surface) => { ρ := [("r", .wid 0), ("v0", .ctx c), ("v1", .cells cells), ("v2", .size sw sh), ("v3", .surf a.2),
+              ("v4", Val.scanner false rest line), ("v5", .u16 row), ("v6", .u16 a.1), ("v7", .cells line), ("v8", .int (lineWidthInt line)),
+              ("v10", .bool (tooWide c.maxW line))], scr := scr })
+          Val.cell (colStepH c.maxW row (tooWide c.maxW line) none) ?_ line 0 (0, s)]
+        · rcases foldS_colStepH c.maxW row (tooWide c.maxW line) none line 0 s with ⟨c', s', h1, h2⟩ | ⟨p, h1, h2⟩
+          · rw [h1, h2]; simp [Step.toRes]
+          · rw [h1, h2]; simp [Step.toRes]
+        · intro a ch i
+          obtain ⟨col, s0⟩ := a
+          by_cases hc : c.maxW ≤ col
+          · simp [colStepH, hc, Step.toRes]
+          · cases htw : tooWide c.maxW line
+            · simp [colStepH, hc, htw, Step.toRes]
+              cases writeCell exactA s0 col row ch <;> simp [Step.toRes, u16]
+            · by_cases hr : c.maxW ≤ col + u16 ch.w
+              · have hr' : c.maxW ≤ col + UInt16.ofInt ch.w := hr
+                simp [colStepH, hc, htw, hr, hr', Step.toRes, gEllipsis]
+                cases writeCell exactA s0 col row { g := 2, w := 1, st := ch.st } <;> simp [Step.toRes]
+              · have hr' : ¬ c.maxW ≤ col + UInt16.ofInt ch.w := hr
+                simp [colStepH, hc, htw, hr, hr', Step.toRes]
+                cases writeCell exactA s0 col row ch <;> simp [Step.toRes, u16]
+      · intro a ch i
+        simp [Step.toRes]
+
+theorem textDraw_hard_body_eq_model (R : Ro) (c : Ctx) (st : Nat) (sw sh : UInt16) (scr : Screen)
+    (hs : R.fields "Softwrap" = some (.bool false))
+    (hsty : R.fields "Style" = some (.sty st)) (hcont : R.fields "Content" = some .text)
+    (hsize : R.self "meth:findContainerSize" [.wid 0, .ctx c] = some (.ok (.size sw sh))) :
+    (run R SurfaceBodies.textDraw SurfaceBodies.textDrawParams [.wid 0, .ctx c] scr).map (·.1)
+      = (match drawLines exactA (hardM (some st)) c.maxW c.maxH (R.hard.map (List.map (restyle st))) 0 (fillStyle (newSurface exactA sw sh) st) with
+         | .ok s => .ok (.tup (.surf s) .nil)
+         | .error p => .error (.panic p)) := by
+  simp [SurfaceBodies.textDraw, SurfaceBodies.textDrawParams, hs, hsty, hcont, hsize]
+  rw [loopS_foldS R _ 5 (.range "_" "v4")
+    (fun (a : UInt16 × Surface) => { ρ := [("r", .wid 0), ("v0", .ctx c), ("v1", .size sw sh),
+        ("v2", .surf a.2), ("v3", .u16 a.1)], scr := scr })
+    Val.strOf (rowStepHL (List.map (restyle st)) c.maxW c.maxH (some st))
+    ?_ R.hard 0 (0, fillStyle (newSurface exactA sw sh) st)]
+  · rcases foldS_rowStepHL (List.map (restyle st)) c.maxW c.maxH (some st) R.hard 0 (fillStyle (newSurface exactA sw sh) st) with
+      ⟨row', s', h1 | h1, h2⟩ | ⟨p, h1, h2⟩
+    · rw [h1, h2]; simp [Step.toRes]
+    · rw [h1, h2]; simp [Step.toRes]
+    · rw [h1, h2]; simp [Step.toRes]
+  · intro a line i
+    obtain ⟨row, s⟩ := a
+    by_cases hg : c.maxH ≤ row
+    · simp [rowStepHL, hg, Step.toRes]
+    · simp [rowStepHL, hg, Step.toRes]
+      rw [loopS_foldS R _ 9 (.range "_" "v8")
+        (fun (acc : Int) => { ρ := [("r", .wid 0), ("v0", .ctx c), ("v1", .size sw sh), ("v2", .surf s), ("v3", .u16 row),
+            ("v4", .strOf line), ("v5", .u16 0), ("v6", .cells line), ("v7", .int acc)], scr := scr })
+        Val.cell (fun acc ch => Step.next (acc + ch.w)) ?_ line 0 0, foldS_widthInt]
+      · simp [Step.toRes]
+        rw [show decide ((c.maxW.toNat : Int) < lineWidthInt line) = tooWide c.maxW line from rfl]
+        rw [loopS_foldS R _ 10 (.range "_" "v10")
+          (fun (a : UInt16 × Surface) => { ρ := [("r", .wid 0), ("v0", .ctx c), ("v1", .size sw sh), ("v2", .surf a.2), ("v3", .u16 row),
+              ("v4", .strOf line), ("v5", .u16 a.1), ("v6", .cells line), ("v7", .int (lineWidthInt line)),
+              ("v9", .bool (tooWide c.maxW line))], scr := scr })
+          Val.cell (fun a ch => colStepH c.maxW row (tooWide c.maxW line) (some st) a (restyle st ch)) ?_ line 0 (0, s), foldS_map]
+        · rw [tooWide_restyle]
+          rcases foldS_colStepH c.maxW row (tooWide c.maxW line) (some st) (line.map (restyle st)) 0 s with ⟨c', s', h1, h2⟩ | ⟨p, h1, h2⟩
+          · rw [h1, h2]; simp [Step.toRes]
+          · rw [h1, h2]; simp [Step.toRes]
+        · intro a ch i
+          obtain ⟨col, s0⟩ := a
+          by_cases hc : c.maxW ≤ col
+          · simp [colStepH, hc, Step.toRes]
+          · cases htw : tooWide c.maxW line
+            · simp [colStepH, hc, htw, Step.toRes, hsty, restyle]
+              cases writeCell exactA s0 col row { g := ch.g, w := ch.w, st := st } <;> simp [Step.toRes, u16]
+            · by_cases hr : c.maxW ≤ col + u16 ch.w
+              · have hr' : c.maxW ≤ col + UInt16.ofInt ch.w := hr
+                simp [colStepH, hc, htw, hr, hr', Step.toRes, gEllipsis, hsty, restyle]
+                cases writeCell exactA s0 col row { g := 2, w := 1, st := st } <;> simp [Step.toRes]
+              · have hr' : ¬ c.maxW ≤ col + UInt16.ofInt ch.w := hr
+                simp [colStepH, hc, htw, hr, hr', Step.toRes, hsty, restyle]
+                cases writeCell exactA s0 col row { g := ch.g, w := ch.w, st := st } <;> simp [Step.toRes, u16]
+      · intro a ch i
+        simp [Step.toRes]
+
+/-- `Draw` with `Softwrap = true` hands over to `drawSoftwrap` (both widgets). -/
+theorem draw_soft_delegates (R : Ro) (c : Ctx) (scr : Screen) (v : Val)
+    (hs : R.fields "Softwrap" = some (.bool true)) (hd : R.self "meth:drawSoftwrap" [.wid 0, .ctx c] = some (.ok v)) :
+    (run R SurfaceBodies.richDraw SurfaceBodies.richDrawParams [.wid 0, .ctx c] scr).map (·.1) = .ok v ∧
+    (run R SurfaceBodies.textDraw SurfaceBodies.textDrawParams [.wid 0, .ctx c] scr).map (·.1) = .ok v := by
+  constructor <;> simp [SurfaceBodies.richDraw, SurfaceBodies.richDrawParams, SurfaceBodies.textDraw, SurfaceBodies.textDrawParams, hs, hd]
+
+/-- **RichText.Draw (hard wrap) = the model**: with `findContainerSize` returning what its executed body returns, the executed
+body is `Layout.drawText` in the hard-wrap mode of the current source (`richMode true`: its ellipsis conjuncts are read from the
+source and are `[lineTooWide, reach]`, `Props.C14.facts_ellipsis_cond`). -/
+theorem richDraw_hard_is_drawText (R : Ro) (c : Ctx) (cells : List Cell) (scr : Screen)
+    (hs : R.fields "Softwrap" = some (.bool false))
+    (hcells : R.self "meth:cells" [.wid 0, .ctx c] = some (.ok (.cells cells)))
+    (hsize : R.self "meth:findContainerSize" [.wid 0, .cells cells, .ctx c]
+      = some (.ok (.size (findContainerSize true c R.hard).1 (findContainerSize true c R.hard).2))) :
+    (run R SurfaceBodies.richDraw SurfaceBodies.richDrawParams [.wid 0, .ctx c] scr).map (·.1)
+      = (match drawText exactA (richMode true) c R.hard with
+         | .ok s => .ok (.tup (.surf s) .nil)
+         | .error p => .error (.panic p)) := by
+  rw [richDraw_hard_body_eq_model R c cells _ _ scr hs hcells hsize]
+  have h1 : (richMode true).sizeStrict = true := by decide
+  have h2 : (richMode true).sz = (.sizeW, .sizeH) := by decide
+  have h3 : (richMode true).drawStrict = true := by decide
+  have h4 : (richMode true).fill = none := rfl
+  have h5 : (richMode true).ell = [.lineTooWide, .reach] := by decide
+  simp only [drawText, h1, h2, h4, evalSz]
+  rw [drawLines_congr (hardM none) (richMode true) rfl (by rw [h5]; rfl) rfl (by rw [h3]; rfl)]
+
+/-- **Text.Draw (hard wrap) = the model** (`textMode true st`, on the restyled lines). -/
+theorem textDraw_hard_is_drawText (R : Ro) (c : Ctx) (st : Nat) (scr : Screen)
+    (hs : R.fields "Softwrap" = some (.bool false))
+    (hsty : R.fields "Style" = some (.sty st)) (hcont : R.fields "Content" = some .text)
+    (hsize : R.self "meth:findContainerSize" [.wid 0, .ctx c]
+      = some (.ok (.size (findContainerSize true c (R.hard.map (List.map (restyle st)))).1
+                         (findContainerSize true c (R.hard.map (List.map (restyle st)))).2))) :
+    (run R SurfaceBodies.textDraw SurfaceBodies.textDrawParams [.wid 0, .ctx c] scr).map (·.1)
+      = (match drawText exactA (textMode true st) c (R.hard.map (List.map (restyle st))) with
+         | .ok s => .ok (.tup (.surf s) .nil)
+         | .error p => .error (.panic p)) := by
+  rw [textDraw_hard_body_eq_model R c st _ _ scr hs hsty hcont hsize]
+  have h1 : (textMode true st).sizeStrict = true := by simp only [textMode]; decide
+  have h2 : (textMode true st).sz = (.sizeW, .sizeH) := by simp only [textMode]; decide
+  have h3 : (textMode true st).drawStrict = true := by simp only [textMode]; decide
+  have h4 : (textMode true st).fill = some st := rfl
+  have h5 : (textMode true st).ell = [.lineTooWide, .reach] := by simp only [textMode]; decide
+  simp only [drawText, h1, h2, h4, evalSz]
+  rw [drawLines_congr (hardM (some st)) (textMode true st) rfl (by rw [h5]; rfl) rfl (by rw [h3]; rfl)]
+
 end VaxisModel.Props.C14Body
